@@ -38,6 +38,7 @@ namespace cif {
 CIF_VAR(long live, = 0)            // live blocks obtained through operator new
 CIF_VAR(long countdown, = -1)      // >0: the countdown-th allocation from now throws bad_alloc
 CIF_VAR(bool fired, = false)
+CIF_VAR(bool in_oom, = false)        // the bad_alloc pass of run_self is running (callers free owned outputs at once)
 inline void arm(long n) { countdown = n; fired = false; }
 inline void disarm() { countdown = -1; }
 }
@@ -360,9 +361,11 @@ void run_self_once(const char* entry, const std::string& variant, const typename
       Obj<Dom> s(proto);
       std::string before = s.dump();
       seen.clear();
+      in_oom = true;
       arm(1);
       int r = ccall(s.h);
       disarm();
+      in_oom = false;
       bool f = fired;
       int ok = Dom::cok(s.h);
       std::string after = s.dump();
